@@ -4,14 +4,17 @@
 (* properties force: exactly the well-formed messages published on the topic   *)
 (* while subscribed (in publish order for one worker).                         *)
 EXTENDS Integers, Sequences, FiniteSets, TLC, SequencesExt, Json
-CONSTANTS MaxLen, WithUnsub
+CONSTANTS MaxLen, WithUnsub, Bursts
 Kinds == {"ok", "short", "badhdr", "wrongop", "foreign"}
 Seqs == UNION {[1..n -> Kinds] : n \in 1..MaxLen}
 \* unsub = 0: never; u in 1..Len(s): Unsubscribe returns before message u is published
 UPos(s) == IF WithUnsub THEN 0..Len(s) ELSE {0}
 Expected(s, u) == SelectSeq([i \in 1..Len(s) |-> IF s[i] = "ok" /\ (u = 0 \/ i < u) THEN i ELSE 0], LAMBDA x : x > 0)
-CasesOf(s) == {[kinds |-> s, unsub |-> u, expect |-> Expected(s, u)] : u \in UPos(s)}
-Cases == UNION {CasesOf(s) : s \in Seqs}
+CasesOf(s) == {[kinds |-> s, unsub |-> u, expect |-> Expected(s, u), stall |-> FALSE] : u \in UPos(s)}
+\* a backlog: the handler is held inside the first message until b well-formed messages have been published (the broker's
+\* queue, the subscription's pending list and the work queue all fill up); every one of them is still delivered, once, in order
+StallCases == {[kinds |-> [i \in 1..b |-> "ok"], unsub |-> 0, expect |-> [i \in 1..b |-> i], stall |-> TRUE] : b \in Bursts}
+Cases == UNION {CasesOf(s) : s \in Seqs} \cup StallCases
 ASSUME JsonSerialize("pubsub_cases.json", SetToSeq(Cases))
 ASSUME PrintT("CASES " \o ToString(Cardinality(Cases)))
 VARIABLE x
